@@ -10,7 +10,8 @@
 (***************************************************************************)
 EXTENDS Integers, Sequences, FiniteSets, TLC, SequencesExt, Json
 
-CONSTANTS Starts, Stops, Steps, FilterConsts, FilterOps, Box, Mults
+CONSTANTS Starts, Stops, Steps, FilterConsts, FilterOps, Box, Mults,
+          OrForms      \* comparison operators used inside the three-part and/or filters (kept small)
 
 \* the elements of range(a, b, s) for s > 0, in order
 RECURSIVE RangeSeq(_, _, _)
@@ -21,15 +22,29 @@ CmpVal(op, x, c) ==
       [] op = ">=" -> x >= c [] op = "==" -> x = c [] op = "!=" -> x # c
 
 Filt(s, fs) == SelectSeq(s, LAMBDA x : \A i \in 1..Len(fs) : CmpVal(fs[i][1], x, fs[i][2]))
+\* filters that are not conjunctions: "or" = f1 or f2;  "andor" = f1 and (f2 or f3);  "orand" = f1 or (f2 and f3)
+Holds(form, fs, x) ==
+    LET h(i) == CmpVal(fs[i][1], x, fs[i][2]) IN
+    CASE form = "and" -> \A i \in 1..Len(fs) : h(i)
+      [] form = "or" -> \E i \in 1..Len(fs) : h(i)
+      [] form = "andor" -> h(1) /\ (h(2) \/ h(3))
+      [] form = "orand" -> h(1) \/ (h(2) /\ h(3))
+FiltForm(s, form, fs) == SelectSeq(s, LAMBDA x : Holds(form, fs, x))
 RECURSIVE SumSeq(_)
 SumSeq(s) == IF s = <<>> THEN 0 ELSE Head(s) + SumSeq(Tail(s))
 
 Filters1 == {<< <<op, c>> >> : op \in FilterOps, c \in FilterConsts}
 Filters2 == {<< <<o1, c1>>, <<o2, c2>> >> : o1 \in FilterOps, c1 \in FilterConsts, o2 \in FilterOps, c2 \in FilterConsts}
 
+Filters3 == {<< <<o1, c1>>, <<o2, c2>>, <<o3, c3>> >> : o1 \in OrForms, c1 \in FilterConsts, o2 \in OrForms, c2 \in FilterConsts,
+                                                       o3 \in OrForms, c3 \in FilterConsts}
 Cases ==
-    {[kind |-> "comp", a |-> a, b |-> b, s |-> s, fs |-> fs, exp |-> Filt(RangeSeq(a, b, s), fs)] :
+    {[kind |-> "comp", form |-> "and", a |-> a, b |-> b, s |-> s, fs |-> fs, exp |-> Filt(RangeSeq(a, b, s), fs)] :
         a \in Starts, b \in Stops, s \in Steps, fs \in Filters1 \cup Filters2}
+    \cup {[kind |-> "comp", form |-> "or", a |-> a, b |-> b, s |-> 1, fs |-> fs, exp |-> FiltForm(RangeSeq(a, b, 1), "or", fs)] :
+        a \in Starts, b \in Stops, fs \in Filters2}
+    \cup {[kind |-> "comp", form |-> fm, a |-> a, b |-> b, s |-> 1, fs |-> fs, exp |-> FiltForm(RangeSeq(a, b, 1), fm, fs)] :
+        fm \in {"andor", "orand"}, a \in Starts, b \in Stops, fs \in Filters3}
     \cup {[kind |-> "sumrange", a |-> a, b |-> b, s |-> 1, fs |-> <<>>, exp |-> <<SumSeq(RangeSeq(a, b, 1))>>] :
         a \in Starts, b \in Stops}
     \cup {[kind |-> "sumcomp", a |-> a, b |-> b, s |-> m, fs |-> <<>>,
